@@ -180,7 +180,7 @@ func runC07(c *engine.Ctx) {
 	r1 := c.Rule("R1", "every LinkBudget charge site in /repo uses the exceed-threshold of go-ipld-prime's own charge sites (exceeded iff pre-decrement budget <= T)", 2)
 	r2 := c.Rule("R2", "the *Budget charged for the root load is the one handed to traversal.Progress", 1)
 	r3 := c.Rule("R3", "the budget installed is the smaller non-zero of global and per-request limits, and no budget iff both are zero (all weak orderings)", 2)
-	r4 := c.Rule("R4", "link-limit options and hook MaxLinks are wired to the fields they belong to", 6)
+	r4 := c.Rule("R4", "link-limit options and hook MaxLinks are wired to the fields they belong to", 4)
 
 	trav := c.P.Pkg("github.com/ipld/go-ipld-prime/traversal")
 	if trav == nil {
